@@ -47,7 +47,11 @@ PSIZE = 0x40
 A_IN = P2 + 8         # access entirely inside P2
 G1, G2, GSTK = P1 + 0x10, P1 + 0x20, P1 + 0x30
 
-KINDS = ["unmapped", "readonly", "straddle", "straddle_ro"]
+KINDS = ["unmapped", "readonly", "straddle", "straddle_ro",
+         # three pages: good | a 1- or 2-byte middle page that is unmapped / not writable / not readable | good; the access
+         # starts on the last byte of the first page and ends in the third one (it crosses TWO page ends)
+         "mid1_unmapped", "mid2_unmapped", "mid1_nowrite", "mid2_nowrite", "mid1_noread", "mid2_noread"]
+MID_KINDS = [k for k in KINDS if k.startswith("mid")]
 POSITIONS = ["first", "middle", "last"]
 BACKENDS = ["python", "gcc"]
 MAXLINES = [50, 1]
@@ -202,12 +206,46 @@ def kinds_for(access, size, aligned=False):
         ks.append("straddle")
         if "w" in access:
             ks.append("straddle_ro")
+    if size >= 4 and not aligned:
+        ks += ["mid1_unmapped", "mid2_unmapped"]
+        if "w" in access:
+            ks += ["mid1_nowrite", "mid2_nowrite"]
+        if "r" in access:
+            ks += ["mid1_noread", "mid2_noread"]
     return ks
+
+
+def fault_layout(kind, p2):
+    """Pages mapped in the faulting run over the range of P2: [(address, permission, bytes)]."""
+    if kind in ("unmapped", "straddle"):
+        return []
+    if kind in ("readonly", "straddle_ro"):
+        return [(P2, R, p2)]
+    m = int(kind[3])
+    perm = {"unmapped": None, "nowrite": R, "noread": W}[kind.split("_")[1]]
+    out = [(P2 + m, R | W, p2[m:])]
+    if perm is not None:
+        out.insert(0, (P2, perm, p2[:m]))
+    return out
+
+
+def repair_layout(jit, kind, p2):
+    """Map / unprotect what made the access fault."""
+    if kind in ("unmapped", "straddle"):
+        jit.vm.add_memory_page(P2, R | W, p2, "p2")
+    elif kind in ("readonly", "straddle_ro"):
+        jit.vm.set_mem_access(P2, R | W)
+    elif kind.endswith("unmapped"):
+        jit.vm.add_memory_page(P2, R | W, p2[:int(kind[3])], "middle")
+    else:
+        jit.vm.set_mem_access(P2, R | W)
 
 
 def fault_addr(kind, size):
     if kind in ("unmapped", "readonly"):
         return A_IN
+    if kind in MID_KINDS:
+        return P2 - 1              # one byte in P1, the middle page, the rest in the third page
     return P2 - size // 2          # half of the bytes in P1, half in P2
 
 
@@ -223,6 +261,10 @@ def all_cases(arch_names, quick=False):
                             continue        # every new block costs a C compilation: the quick tier compiles 2 instructions
                         for ml in MAXLINES:
                             if quick and be == "gcc" and ml == 1:
+                                continue
+                            if quick and kind in MID_KINDS:
+                                if ml == 50:
+                                    out.append((an, ii, si, kind, "middle", be, ml))
                                 continue
                             for pos in (POSITIONS if ml != 1 else ["middle"]):
                                 out.append((an, ii, si, kind, pos, be, ml))
@@ -269,18 +311,19 @@ def observe(jit):
     regs = dict(jit.cpu.get_gpreg())
     mem = {}
     for ad, d in jit.vm.get_all_memory().items():
-        mem[ad] = bytes(d["data"])
+        for i, b in enumerate(bytes(d["data"])):
+            mem[ad + i] = b
     return regs, mem
 
 
-def _mk(a, backend, maxline, maxexec, ii, p1, p2, regs, p2_perm):
+def _mk(a, backend, maxline, maxexec, ii, p1, p2, regs, layout):
     from mc import jitx
     code, labels, offs = program(a, ii)
     jit = jitx.fresh(a.name, backend, jit_maxline=maxline, max_exec_per_call=maxexec)
     jit.vm.add_memory_page(CODE, R | W | X, code, "code")
     jit.vm.add_memory_page(P1, R | W, p1, "p1")
-    if p2_perm is not None:
-        jit.vm.add_memory_page(P2, p2_perm, p2, "p2")
+    for ad, perm, content in layout:
+        jit.vm.add_memory_page(ad, perm, content, "p2")
     for r, v in regs.items():
         setattr(jit.cpu, r, v)
     st = {"done": False, "faults": []}
@@ -307,7 +350,7 @@ def reference(a, ii, si, kind):
         return _ref_cache[key]
     site = a.insns[ii][2][si]
     p1, p2, regs, A = image(a, ii, site, kind)
-    jit, st, labels = _mk(a, "python", 1, 1, ii, p1, p2, regs, R | W)
+    jit, st, labels = _mk(a, "python", 1, 1, ii, p1, p2, regs, [(P2, R | W, p2)])
     hit = []
 
     def stop_f(j):
@@ -336,17 +379,17 @@ def _diff_regs(got, want, ignore):
     return sorted(k for k in want if k not in ignore and got.get(k) != want[k])
 
 
+def _region(ad):
+    return CODE if ad < P1 else (P1 if ad < P2 else P2)
+
+
 def _diff_mem(got, want):
-    """Pages of @got compared with the same pages of @want; returns list of (page, first differing address)."""
-    out = []
-    for ad, data in sorted(got.items()):
-        w = want.get(ad)
-        if w is None:
-            out.append((ad, None))
-        elif w != data:
-            i = next(k for k in range(len(data)) if data[k] != w[k])
-            out.append((ad, ad + i))
-    return out
+    """Every mapped byte of @got (address -> byte) against @want; returns [(region, first differing address)]."""
+    out = {}
+    for ad in sorted(got):
+        if want.get(ad) != got[ad]:
+            out.setdefault(_region(ad), ad)
+    return sorted(out.items())
 
 
 PAGE_NAMES = {CODE: "code", P1: "mapped-page", P2: "fault-page"}
@@ -361,7 +404,7 @@ def run_case(case):
     sname, cls, access, size = site[0], site[1], site[2], site[3]
     ref = reference(a, ii, si, kind)
     # signature skeleton: which half of the access faults (the instruction class goes to the witness text)
-    direction = "load" if access == "r" or (access == "rw" and kind in ("unmapped", "straddle")) else "store"
+    direction = "load" if access == "r" or (access == "rw" and (kind in ("unmapped", "straddle") or kind.endswith(("_unmapped", "_noread")))) else "store"
     pre_sig = "%s:%s:%s-faults:%s" % (an, be, direction, kind)
     ctx_txt = "%s `%s` (%s, %s access faults, %s, fault address %#x), position %s in its block, backend %s, jit_maxline %d" % (
         an, asm, cls, sname, kind, fault_addr(kind, size), pos, be, ml)
@@ -370,8 +413,7 @@ def run_case(case):
     (pre_regs, pre_mem), (fin_regs, fin_mem) = ref
     p1, p2, regs, A = image(a, ii, site, kind)
     nontrivial = pre_mem != fin_mem or "r" in access
-    perm = {"unmapped": None, "straddle": None, "readonly": R, "straddle_ro": R}[kind]
-    jit, st, labels = _mk(a, be, ml, None, ii, p1, p2, regs, perm)
+    jit, st, labels = _mk(a, be, ml, None, ii, p1, p2, regs, fault_layout(kind, p2))
     F = labels["F"]
     passthrough = lambda j: True
     if pos == "first":
@@ -435,10 +477,7 @@ def run_case(case):
     # resume
     jit.vm.set_exception(0)
     jit.cpu.set_exception(0)
-    if perm is None:
-        jit.vm.add_memory_page(P2, R | W, pre_mem[P2], "p2")
-    else:
-        jit.vm.set_mem_access(P2, R | W)
+    repair_layout(jit, kind, p2)
     try:
         jit.continue_run()
         escaped = None
@@ -472,7 +511,7 @@ def fault_free_crosscheck(an, ii, si, kind, be, ml):
     if isinstance(ref, str):
         return []
     p1, p2, regs, A = image(a, ii, site, kind)
-    jit, st, labels = _mk(a, be, ml, None, ii, p1, p2, regs, R | W)
+    jit, st, labels = _mk(a, be, ml, None, ii, p1, p2, regs, [(P2, R | W, p2)])
     try:
         jit.run(CODE)
     except Exception as e:
